@@ -8,6 +8,11 @@ EXTENDS PrettyGrammar, Json, CSV, IOUtils
 CONSTANTS MaxTokens, PoolName, SimMode
 VARIABLES toks, seps, trail
 S1(c) == <<c>>
+I1 == Tok(Dec(1), <<IV(1)>>)
+TrueT == Tok(<<116, 114, 117, 101>>, <<[t |-> "T", v |-> <<>>]>>)
+FalseT == Tok(<<102, 97, 108, 115, 101>>, <<[t |-> "F", v |-> <<>>]>>)
+NilT == Tok(<<110, 105, 108>>, <<[t |-> "N", v |-> <<>>]>>)
+StrA == Tok(<<34, 97, 34>>, <<[t |-> "s", v |-> <<97>>]>>)
 Pool ==
   IF PoolName = "numbers" THEN
        IntToks(42) \cup IntToks(0 - 7) \cup IntToks(0) \cup IntToks(255) \cup LongToks(0 - 19) \cup LongToks(1099511)
@@ -27,7 +32,11 @@ Pool ==
          ArrTok(<<Tok(Dec(1), <<IV(1)>>), Tok(Dec(2), <<IV(2)>>), Tok(Dec(3), <<IV(3)>>)>>, <<>>), ArrTok(<<Tok(Dec(1), <<IV(1)>>)>>, <<32>>), ArrTok(<<>>, <<>>),
          ArrTok(<<Tok(<<34, 77, 34>>, <<[t |-> "s", v |-> <<77>>]>>), Tok(<<34, 115, 34>>, <<[t |-> "s", v |-> <<115>>]>>)>>, <<32>>),
          ArrTok(<<RangeTok2(1, 5)>>, <<32>>), ArrTok(<<Tok(<<116, 114, 117, 101>>, <<[t |-> "T", v |-> <<>>]>>), Tok(<<102, 97, 108, 115, 101>>, <<[t |-> "F", v |-> <<>>]>>)>>, <<>>),
-         ArrOpen2(1, 2), ArrOpen2(5, 3), Tok(Dec(9), <<IV(9)>>), Tok(<<34, 122, 34>>, <<[t |-> "s", v |-> <<122>>]>>), Tok(DecDyadic(1, 1), <<FV(1, 1)>>) }
+         ArrOpen2(1, 2), ArrOpen2(5, 3),
+         ArrOpenRep(<<>>, I1), ArrOpenRep(<<I1>>, I1), ArrOpenRep(<<Tok(DecDyadic(1, 1), <<FV(1, 1)>>)>>, I1), ArrOpenRep(<<>>, TrueT), ArrOpenRep(<<TrueT>>, TrueT),
+         ArrOpenRep(<<TrueT, FalseT>>, FalseT), ArrOpenRep(<<>>, StrA), ArrOpenRep(<<StrA>>, StrA), ArrOpenRep(<<NilT>>, NilT), ArrOpenRep(<<I1, I1>>, I1),
+         ArrOpenAny(<<TrueT>>, FalseT), ArrOpenAny(<<FalseT>>, TrueT),
+         Tok(Dec(9), <<IV(9)>>), Tok(<<34, 122, 34>>, <<[t |-> "s", v |-> <<122>>]>>), Tok(DecDyadic(1, 1), <<FV(1, 1)>>) }
 Init == toks = <<>> /\ seps = <<>> /\ trail \in Trailers
 Next == /\ Len(toks) < MaxTokens
         /\ \E tk \in Pool :
